@@ -190,7 +190,7 @@ fn random_pat(src: &mut Src) -> Pat {
 }
 
 /// make a random pattern valid by repairing additions to be ascending / unused
-fn repair(mut p: Pat) -> Option<Pat> {
+pub fn repair(mut p: Pat) -> Option<Pat> {
     if number(&Pat { root: p.root.clone(), ext: None }).is_none() {
         return None;
     }
